@@ -545,7 +545,7 @@ impl SimDriver {
                 if let Some(step) = peer.next_step(&self.plan.peer)
                     && let crate::plan::Pre::AtMs(ms) = step.pre
                     && !peer.closed
-                    && (peer.connect_sent || !peer.ep_is_server)
+                    && (peer.connect_sent || !peer.ep_is_server || self.plan.peer.skip_connect)
                 {
                     let ns = ms * 1_000_000;
                     if ns > simclock::now_ns() {
